@@ -40,6 +40,7 @@ int __real_sem_trywait(sem_t*);
 int __real_sem_timedwait(sem_t*, const struct timespec*);
 }
 
+static int g_failCreates = 0;   // injected thread-creation failures still to come
 namespace vsched {
 namespace {
 
@@ -242,7 +243,12 @@ void* trampoline(void* p) {
   return nullptr;
 }
 
-long long toNs(const struct timespec* ts) { return ((long long)ts->tv_sec - EPOCH_S) * 1000000000LL + ts->tv_nsec; }
+// absolute time -> virtual ns; a deadline more than 100 virtual years away ("practically infinite" time-outs such as INT64_MAX ms) would
+// overflow the ns counter: it is treated as no deadline at all (-1), like an untimed wait
+const long long FAR_S = 100LL * 365 * 86400;
+bool farFuture(const struct timespec* ts) { return (long long)ts->tv_sec - EPOCH_S > FAR_S; }
+bool invalidTs(const struct timespec* ts) { return ts->tv_nsec < 0 || ts->tv_nsec >= 1000000000L; }
+long long toNs(const struct timespec* ts) { long long s = (long long)ts->tv_sec - EPOCH_S; if (s < 0) return 0; if (s > FAR_S) s = FAR_S; return s * 1000000000LL + ts->tv_nsec; }
 
 void lockMutex(M* m) {
   int me = tl_id;
@@ -263,6 +269,8 @@ void unlockMutexFully(M* m, int* savedDepth) {
 int condWait(pthread_cond_t* c, pthread_mutex_t* mu, const struct timespec* abs) {
   // a preemption between the caller's test of its predicate and the wait: harmless when the predicate is only changed under the
   // mutex (which the caller still holds here), a lost wake-up when it is not
+  if (abs && invalidTs(abs)) return EINVAL;
+  if (abs && farFuture(abs)) abs = nullptr;   // never reached in any run: an untimed wait
   yieldPoint();
   int me = tl_id; C* cc = findC(c); (void)cc; M* m = findM(mu);
   TRACE("cond_wait %p%s", (void*)c, abs ? " (timed)" : "");
@@ -297,6 +305,7 @@ void wakeAll(const void* key) {
   for (int i = 0; i < nth; ++i) if (th[i].state == T_BLOCKED && th[i].wait == W_KEY && th[i].obj == key) { th[i].state = T_RUNNABLE; th[i].deadline = -1; }
 }
 bool active() { return g_active; }
+void failNextThreadCreations(int n) { g_failCreates = n; }
 int self() { return tl_id; }
 long long nowNs() { return vclock; }
 const Stats& stats() { st.virtualNs = vclock; return st; }
@@ -307,7 +316,7 @@ void run(const Config& c, void (*fn)(void*), void* arg, void (*onVerdict)(Verdic
   g_trace = getenv("VSCHED_TRACE") != nullptr;
   cfg = c; st = Stats(); rs = c.seed * 0x9E3779B97F4A7C15ull + 1; g_onVerdict = onVerdict;
   vclock = (long long)(rnd() % 1000) * 1000000LL + (long long)(rnd() % 1000000);   // random phase within the second (deadline arithmetic has carries)
-  nth = 0; nmx = ncv = nsm = 0; rrNext = 0; nlocs = 0; memset((void*)aloc, 0, sizeof aloc); alocUsed = 0;
+  nth = 0; nmx = ncv = nsm = 0; rrNext = 0; nlocs = 0; g_failCreates = 0; memset((void*)aloc, 0, sizeof aloc); alocUsed = 0;
   for (int i = 0; i < MAXT; ++i) th[i] = T();
   // the few preemption / priority change points lie within a horizon drawn per run (short runs and long scenarios both get
   // their share), and the uniform strategy keeps the running thread with a per-run probability (runs of different lengths)
@@ -334,6 +343,9 @@ extern "C" {
 
 int __wrap_pthread_create(pthread_t* t, const pthread_attr_t* a, void* (*fn)(void*), void* arg) {
   if (!g_active || tl_id < 0) return __real_pthread_create(t, a, fn, arg);
+  if (g_failCreates > 0) {   // injected fault: no thread can be created now; like glibc, the handle has been written before the failure is known
+    --g_failCreates; *t = (pthread_t)0x5a5a5a5a5a5a5a50ULL; yieldPoint(); return EAGAIN;
+  }
   if (nth >= MAXT) { fprintf(stderr, "vsched: too many threads\n"); _exit(97); }
   int id = nth++;
   th[id] = T(); th[id].state = T_RUNNABLE; th[id].fn = fn; th[id].arg = arg; th[id].prio = (int)(rnd() % 1000);
@@ -392,7 +404,10 @@ int __wrap_sem_clockwait(sem_t* s, clockid_t, const struct timespec* ts) { if (!
 int __wrap_clock_gettime(clockid_t id, struct timespec* ts) {
   if (!g_active || tl_id < 0 || !isTimeClock(id)) return __real_clock_gettime(id, ts);
   vclock += 1000;  // reading the clock takes a microsecond of virtual time (busy waits on the clock make progress)
-  long long t = vclock; ts->tv_sec = (time_t)(EPOCH_S + t / 1000000000LL); ts->tv_nsec = (long)(t % 1000000000LL);
+  long long t = vclock;
+  // the _COARSE clocks stand still between two timer ticks (4 ms): they lag behind the precise clocks by up to a tick
+  if (id == CLOCK_REALTIME_COARSE || id == CLOCK_MONOTONIC_COARSE) t -= t % 4000000LL;
+  ts->tv_sec = (time_t)(EPOCH_S + t / 1000000000LL); ts->tv_nsec = (long)(t % 1000000000LL);
   return 0;
 }
 
@@ -469,6 +484,8 @@ int __wrap_sem_post(sem_t* s) {
   return 0;
 }
 static int semWait(sem_t* s, const struct timespec* abs) {
+  if (abs && invalidTs(abs)) { errno = EINVAL; return -1; }
+  if (abs && farFuture(abs)) abs = nullptr;
   int me = tl_id; S* ss = findS(s);
   yieldPoint();
   for (;;) {
